@@ -7,11 +7,43 @@ armed timer is due.  Prints `ok …` or `reject <reason>` (+ a `B` line of branc
 import TboxModel.Util
 import TboxModel.C20.WModel
 import TboxModel.C20.Cron
+import TboxModel.C20.CCron
 open Tbox.Util Tbox.C20
 
-def maxWallMs : Nat := 4294967295999
+def maxWallMs : Nat := 8589934591999      -- 2^33 s − 1 ms: tv_sec beyond 2^32 is truncated into the uint32_t (alarm.cpp:38/50)
 def far : Nat := 4294967
 def cronHorizon : Nat := 4000
+/-- setTimezone(int minutes) computes `minutes * 60` in int: 35791394 is the largest value without signed overflow -/
+def tzMax : Int := 35791394
+/-- initialize(int seconds_of_day, …): the whole int range -/
+def sodMax : Int := 2147483647
+
+/-- raw expression bytes of a `cx` / `initx` op: 1…300 bytes, each 1…127 -/
+def exprChars? (hx : String) : Option (List Char) := do
+  let bs ← bytesOfHex hx
+  if bs.isEmpty ∨ bs.length > 300 ∨ bs.any (fun b => b.toNat = 0 ∨ b.toNat ≥ 128) then none
+  else some (bs.map (fun b => Char.ofNat b.toNat))
+
+def hasSub : List Char → List Char → Bool
+  | [], p => p.isEmpty
+  | c :: rest, p => CC.startsWith (c :: rest) p || hasSub rest p
+
+def showBits (e : CC.CExpr) : String :=
+  s!"M bits s={e.seconds} m={e.minutes} h={e.hours} dow={e.dow} dom={e.dom} mon={e.months}"
+
+/-- the transcription of ccronexpr and the proved reference must agree (bit sets and next instant);
+a disagreement is reported as a broken correspondence of the model itself -/
+def crossCheck (ce : Option CC.CExpr) (re : Option Cron.Expr) (t : Nat) : Option String :=
+  match ce, re with
+  | none, none => none
+  | some c, some r =>
+    if c.toExpr != r then some s!"bit sets: transcription {repr c.toExpr} reference {repr r}"
+    else
+      let a := CC.cronNext c t CC.cronFuel
+      let b := Cron.nextCron r t cronHorizon
+      if a != b then some s!"cron_next({t}): transcription {a} reference {b}" else none
+  | some _, none => some "transcription accepts, reference rejects"
+  | none, some _ => some "transcription rejects, reference accepts"
 
 def slot? (s : String) : Option Nat := do
   let i ← s.toNat?
@@ -58,13 +90,19 @@ def act? (self : Nat) (s : String) : Option Act :=
     match (s.drop 2).toString.splitOn ":" with
     | [j, m] => do
         let j ← slot? j; let m ← int? m
-        if m < -1440 ∨ m > 1440 then none else some (.tz j m)
+        if m < -tzMax ∨ m > tzMax then none else some (.tz j m)
+    | _ => none
+  else if s.startsWith "ic" then                -- ic<j>:<hex of the expression>: CronAlarm::initialize from inside the callback
+    match (s.drop 2).toString.splitOn ":" with
+    | [j, hx] => do
+        let j ← slot? j; let cs ← exprChars? hx
+        some (.initc j ((CC.parseExpr cs).map CC.CExpr.toExpr))
     | _ => none
   else if s.startsWith "in" then
     match (s.drop 2).toString.splitOn ":" with
     | [j, sod, m, wd] => do
         let j ← slot? j; let sod ← int? sod; let m ← mask? m; let wd ← bool? wd
-        if sod < -200000 ∨ sod > 200000 then none else some (.init j sod m wd)
+        if sod < -sodMax - 1 ∨ sod > sodMax then none else some (.init j sod m wd)
     | _ => none
   else none
 
@@ -132,34 +170,38 @@ inductive POp where
   | world (o : WOp) (tags : List String)
   | clock (o : WOp)
   | clx (i : Nat)                                        -- cleanup() without re-installing the callback
+  | selfcheck (msg : String)                             -- transcription and reference of the model disagree
   | bad
 
 def parseOp (w : World) (ws : List String) : POp :=
   let r : Option POp :=
     match ws with
     | ["wk", sod, m, t] => do
-        let sod ← bounded? sod 200000; let m ← mask? m; let t ← bounded? t (U32 - 1)
+        let sod ← bounded? sod 2147483647; let m ← mask? m; let t ← bounded? t (U32 - 1)
         let (a, ok) := initAlarm (fresh .weekly) sod m true
         if !ok then pure (.pure ["P init=0"] ["init-rejected"]) else
         let r := nextWeekly a.sod a.mask t
         pure (.pure [showNext r] (scanTag "wk" t r))
     | ["os", sod, t] => do
-        let sod ← bounded? sod 200000; let t ← bounded? t (U32 - 1)
+        let sod ← bounded? sod 2147483647; let t ← bounded? t (U32 - 1)
         let (a, ok) := initAlarm (fresh .oneshot) sod [] true
         if !ok then pure (.pure ["P init=0"] ["init-rejected"]) else
         let r := nextOneshot a.sod t
         pure (.pure [showNext (some r)] (scanTag "os" t (some r)))
     | ["wd", sod, wd, cm, sp, t] => do
-        let sod ← bounded? sod 200000; let wd ← bool? wd; let cm ← bounded? cm 255
+        let sod ← bounded? sod 2147483647; let wd ← bool? wd; let cm ← bounded? cm 255
         let sp ← specialsSep? sp ","; let t ← bounded? t (U32 - 1)
         let (a, ok) := initAlarm (fresh .workday) sod [] wd
         if !ok then pure (.pure ["P init=0"] ["init-rejected"]) else
         let r := nextWorkday a.sod { weekMask := cm, special := sp } a.wd t
         pure (.pure [showNext r] (scanTag "wd" t r ++ (if sp.isEmpty then [] else ["wd-specials"])))
-    | ["cron", s, m, h, dom, mon, dow, t] => do
-        let s ← cronField? s; let m ← cronField? m; let h ← cronField? h
-        let dom ← cronField? dom; let mon ← cronField? mon; let dow ← cronField? dow
+    | ["cron", s0, m0, h0, dom0, mon0, dow0, t] => do
+        let s ← cronField? s0; let m ← cronField? m0; let h ← cronField? h0
+        let dom ← cronField? dom0; let mon ← cronField? mon0; let dow ← cronField? dow0
         let t ← bounded? t (U32 - 1)
+        match crossCheck (CC.parseExpr (" ".intercalate [s0, m0, h0, dom0, mon0, dow0]).toList) (Cron.parse s m h dom mon dow) t with
+        | some msg => pure (.selfcheck msg)
+        | none =>
         match Cron.parse s m h dom mon dow with
         | none => pure (.pure ["P init=0"] ["cron-rejected"])
         | some e =>
@@ -186,6 +228,28 @@ def parseOp (w : World) (ws : List String) : POp :=
           match Cron.nextCron e t cronHorizon with
           | none => pure (.pure ["P en=0 enabled=0 rem=0"] ["cron-enable-fails"])
           | some r => pure (.pure ["P en=1 enabled=1 rem=" ++ toString (w32 (w32 r + U32 - t))] ["cron-enable-ok"])
+    | ["cx", k, hx, t] => do
+        -- raw expression bytes through the TRANSCRIPTION of cron_parse_expr / cron_next (names, ?, hex/octal numbers, white space …)
+        let _ ← bounded? k 7
+        let cs ← exprChars? hx
+        let t ← bounded? t (U32 - 1)
+        match CC.parseExpr cs with
+        | none => pure (.pure ["P init=0"] ["cx-rejected"])
+        | some e =>
+          let r := (CC.cronNext e t CC.cronFuel).map w32
+          let ref := (Cron.nextCron e.toExpr t cronHorizon).map w32
+          if r != ref then pure (.selfcheck s!"cron_next({t}) of {repr e}: transcription {r} reference {ref}") else
+          let shape := (if cs.any Char.isAlpha then ["cx-names"] else []) ++ (if cs.contains '?' then ["cx-question"] else [])
+            ++ (if cs.any (fun c => c != ' ' && CC.isSpace c) then ["cx-inner-space"] else [])
+            ++ (if hasSub cs "0x".toList || hasSub cs "0X".toList then ["cx-hex"] else [])
+          pure (.pure ["P init=1", showBits e, showNext r] (["cx-ok", match r with | none => "cx-none" | some _ => "cx-next"] ++ shape))
+    | ["initx", i, hx] => do
+        let i ← slot? i
+        let cs ← exprChars? hx
+        let a ← w.get i
+        let e := (CC.parseExpr cs).map CC.CExpr.toExpr
+        pure (.world (.initc i e) [if a.cls != .cron then "initc-wrong-class" else if a.st = .running then "initc-running"
+                                   else if e.isNone then (if a.st = .inited then "initc-rejected-keeps-old" else "initc-rejected") else "initx-ok"])
     | "new" :: i :: k :: rest => do
         let i ← slot? i
         let c ← (if k == "wk" then some Cls.weekly else if k == "os" then some Cls.oneshot else if k == "wd" then some Cls.workday
@@ -198,7 +262,7 @@ def parseOp (w : World) (ws : List String) : POp :=
         pure (.world (.new i c sc) (if sc.isEmpty then [] else ["script"]))
     | ["init", i, sod, m, wd] => do
         let i ← slot? i; let sod ← int? sod; let m ← mask? m; let wd ← bool? wd
-        if sod < -200000 ∨ sod > 200000 then none else
+        if sod < -sodMax - 1 ∨ sod > sodMax then none else
         let _ ← w.get i
         pure (.world (.init i sod m wd) [])
     | ["initc", i, s, m, h, dom, mon, dow] => do
@@ -211,7 +275,7 @@ def parseOp (w : World) (ws : List String) : POp :=
                                    else if e.isNone then (if a.st = .inited then "initc-rejected-keeps-old" else "initc-rejected") else "initc-ok"])
     | ["tz", i, m] => do
         let i ← slot? i; let m ← int? m
-        if m < -1440 ∨ m > 1440 then none else
+        if m < -tzMax ∨ m > tzMax then none else
         let _ ← w.get i
         pure (.world (.tz i m) [])
     | ["en", i] => do
@@ -251,7 +315,7 @@ structure TAcc where
 def expectLine (a : TAcc) (want : String) (what : String) : TAcc :=
   match a.tl with
   | l :: rest => if l == want then { a with tl := rest }
-                 else { a with err := some s!"op#{a.nops} {what}: impl=[{l}] model=[{want}]" }
+                 else { a with err := some ((if want.startsWith "M " then "M: " else "") ++ s!"op#{a.nops} {what}: impl=[{l}] model=[{want}]") }
   | [] => { a with err := some s!"op#{a.nops} {what}: impl=<missing> model=[{want}]" }
 
 /-- expiries the trace cannot show: an alarm whose callback was cleared by cleanup() (op `clx`) and never
@@ -309,6 +373,7 @@ def stepOp (a : TAcc) (line : String) : TAcc :=
   let a := { a with nops := a.nops + 1 }
   match parseOp a.w (words line) with
   | .bad => expectLine a "bad-op" "malformed op"
+  | .selfcheck msg => { a with err := some s!"M: op#{a.nops} the model's transcription of ccronexpr and its proved reference disagree: {msg}" }
   | .pure lines tags => lines.foldl (fun acc l => if acc.err.isSome then acc else expectLine acc l "next instant") { a with tags := a.tags ++ tags }
   | .world o tags =>
       let (w', ret) := wOp a.w o
